@@ -2,7 +2,7 @@
 ERRCHK-BEFORE-BLOCK, WAIT-LOOP (C08/C09/C10)."""
 from lzlint.framework import rule
 from lzlint.core import (Prov, Callee, callee_of, strip_generics, last_seg, expr_walk, expr_str,
-                         expr_has_call, self_field_of, guards_of, norm_cmp, op_local, op_place)
+                         expr_has_call, self_field_of, guards_of, norm_cmp, op_local, op_place, switch_edges)
 from lzlint.locks import LockSets, outer_field, WAIT_FNS, LOCK_FNS
 
 ATOMIC_WRITES = ('Atomic::store', 'Atomic::swap', 'Atomic::fetch_add', 'Atomic::fetch_sub', 'Atomic::fetch_or',
@@ -1049,3 +1049,48 @@ def panic_wake(ctx):
         else:
             ctx.ok(key, f.loc(gb), 'guard %s created before any unit work; its Drop posts to the result channel' % last_seg(
                 [s['rv']['adt'] for s in f.blocks[gb]['stmts'] if s['k'] == 'assign' and s['rv']['r'] == 'agg' and s['rv'].get('adt') in guards][0]))
+
+
+# --------------------------------------------------------------------------- UNIT-EXACT
+
+@rule('UNIT-EXACT', ['C04', 'C08'], floor=1)
+def unit_exact(ctx):
+    """LZIPReaderMT cuts its work units by the member sizes found in the trailers and lets a worker decode each unit with
+    the single-threaded reader - which accepts anything after a complete member as trailing data and ends with success.
+    Inside a unit there is no such thing as trailing data: the worker has to check that the member it decoded fills
+    the unit (what is left of the unit's bytes after decoding is empty), otherwise a damaged member that an edited
+    member size has pulled into its predecessor's unit silently drops out of the middle of the file (Ok with a hole).
+    Structure required in the LZIP reader worker: the decoder's source is taken back (`into_inner`) after
+    `read_to_end`, tested with `is_empty`, and the non-empty edge reaches the error path (set_error), not the send of
+    the result."""
+    F = ctx.facts
+    ws = [(f, sb, st) for f, sb, st in worker_fns(F) if f.file == 'src/lzip/reader_mt.rs']
+    if not ws:
+        return ctx.anchor_missing('worker function of LZIPReaderMT')
+    for f, sb, st in ws:
+        key = '%s:member-fills-its-unit' % fn_tag(f)
+        cands = [f] + [g for g in F.closures_of(f)] if hasattr(F, 'closures_of') else [f]
+        ok = False
+        for g in cands:
+            pg = Prov(g)
+            for bi, t, c in g.calls():
+                if c.name != 'is_empty' or not t['args']:
+                    continue
+                a = pg.operand(t['args'][0], 0, '%d:T' % bi)
+                if not any(x[0] == 'call' and last_seg(x[1]) == 'into_inner' and 'LZIPReader' in x[1] for x in expr_walk(a)):
+                    continue
+                # the result decides between Ok and Err
+                nb = t.get('target')
+                if nb is not None and g.blocks[nb]['term']['k'] == 'switch':
+                    se = switch_edges(g, nb)
+                    if se:
+                        nonempty = se[0]
+                        region = g.reach_from([nonempty], stop={se[1]})
+                        if any(s['k'] == 'assign' and s['rv']['r'] == 'agg' and s['rv'].get('variant_name') == 'Err'
+                               for b in region for s in g.blocks[b]['stmts']):
+                            ok = True
+        if ok:
+            ctx.ok(key, f.loc(sb), 'what is left of the unit after decoding is tested with is_empty(); a non-empty rest is an error')
+        else:
+            ctx.violation(key, f.loc(sb), 'the worker never checks that the decoded member fills its unit: bytes after the member inside the unit (a damaged '
+                          'member pulled in by an edited member size) are taken for trailing data and dropped; the reader returns Ok with a hole')
